@@ -47,6 +47,10 @@ pub struct ScaleCase {
     /// the instructions spent in the final drop
     #[serde(default)]
     pub probe: Option<(u32, u32)>,
+    /// ring shapes: every member also records a same-handle self adoption
+    /// (`adopt_unchecked(&x, &x)`, a loopback record)
+    #[serde(default)]
+    pub loopbacks: bool,
 }
 
 fn max_n(tier: Tier, shape: u8) -> f64 {
@@ -200,6 +204,13 @@ unsafe fn build(c: &ScaleCase, n: usize) -> (Box<Rc<Big>>, usize, usize) {
                 edge(a, a, &slot, &mut pairs, &mut adoptions);
             }
         }
+        if c.loopbacks {
+            for i in 0..n {
+                let h: &Rc<Big> = &*slot[i];
+                Rc::adopt_unchecked(h, h);
+                adoptions += 1;
+            }
+        }
     }
     (h0, pairs.len(), adoptions)
 }
@@ -343,8 +354,8 @@ pub const L_HUGE: u32 = 5;
 impl Kind for ScaleKind {
     type Case = ScaleCase;
     fn strategy(_id: &str, _tier: Tier, _variant: u64) -> BoxedStrategy<ScaleCase> {
-        (0u8..7, any::<u16>(), vec((any::<u32>(), any::<u32>()), 0..48), vec(any::<u32>(), 0..16), any::<bool>())
-            .prop_map(|(shape, size, chords, selfs, parallel)| ScaleCase { shape, size, chords, selfs, parallel, probe: None })
+        (0u8..7, any::<u16>(), vec((any::<u32>(), any::<u32>()), 0..48), vec(any::<u32>(), 0..16), any::<bool>(), 0u8..4)
+            .prop_map(|(shape, size, chords, selfs, parallel, lb)| ScaleCase { shape, size, chords, selfs, parallel, probe: None, loopbacks: lb == 0 })
             .boxed()
     }
     fn run(_id: &str, tier: Tier, c: &ScaleCase) -> CaseResult {
